@@ -4,6 +4,7 @@ Imports only the (Mathlib-free) models, so it links as a `lean_exe`.
 -/
 import Driver.Text
 import Aldrin.Model.Msg
+import Aldrin.Model.Packetizer
 
 namespace Aldrin.Driver
 open Aldrin
@@ -77,6 +78,87 @@ def msgCmd (cmd : String) (args : List String) : Option String :=
         | .error _ => "ok unserializable")
   | _, _ => none
 
+def parseIoStep (s : String) : Option IoStep :=
+  match s.toList with
+  | ['p'] => some .pending
+  | ['f'] => some .fail
+  | 'o' :: r => (String.ofList r).toNat?.map .ok
+  | _ => none
+
+def tErrName : TErr → String
+  | .eof => "eof" | .writeZero => "writezero" | .io => "io" | .script => "script"
+  | .deserialize _ => "de"
+
+def pollText {α : Type} (f : α → String) : Poll α → String
+  | .ready a => f a
+  | .pending => "pend"
+  | .err e => "err:" ++ tErrName e
+
+def frameCanon (f : Bytes) : String :=
+  match decodeFrame f with
+  | .error _ => "err:de"
+  | .ok r => match encodeFrame r with
+    | .ok f' => "f:" ++ toHex f'
+    | .error _ => "f:unserializable"
+
+/-- `pk <hexstream> <op>*` with `x<n>` = extend_from_slice of the next n bytes, `f<n>` = exactly n bytes
+written through spare_capacity_mut/bytes_written, `d` = next_message. -/
+def pkCmd (stream : Bytes) (ops : List String) : Option String := do
+  let mut pk : Pk := {}
+  let mut unfed := stream
+  let mut out : List String := []
+  for op in ops do
+    match op.toList with
+    | ['d'] =>
+      let (pk', f) := pk.next
+      pk := pk'
+      out := (match f with | some f => toHex f | none => ".") :: out
+    | 'x' :: r =>
+      let n ← (String.ofList r).toNat?
+      pk := pk.extend (unfed.take n)
+      unfed := unfed.drop n
+    | 'f' :: r =>
+      let n ← (String.ofList r).toNat?
+      pk := pk.written (unfed.take n)
+      unfed := unfed.drop n
+    | _ => none
+  pure (String.intercalate " " (out.reverse ++ ["buf=" ++ toString pk.buf.length]))
+
+/-- `tp <hexinput> <script> <op>*`: script = comma-separated `o<n>|p|f`; ops `S<hexframe>`, `F`, `R`. -/
+def tpCmd (inp : Bytes) (script : List IoStep) (ops : List String) : Option String := do
+  let mut t : Tp := { inp := inp }
+  let mut sc := script
+  let mut out : List String := []
+  for op in ops do
+    match op.toList with
+    | ['F'] =>
+      let (t', r, s') := t.flush sc
+      t := t'; sc := s'
+      out := pollText (fun _ => "rdy") r :: out
+    | ['R'] =>
+      let (t', r, s') := t.receive sc
+      t := t'; sc := s'
+      out := pollText frameCanon r :: out
+    | 'S' :: r =>
+      let fr ← ofHex (String.ofList r)
+      let (t', res, s') := t.pollReady sc
+      t := t'; sc := s'
+      match res with
+      | .ready _ =>
+        t := t.sendStart fr
+        out := "rdy" :: out
+      | other => out := pollText (fun _ => "rdy") other :: out
+    | _ => none
+  pure (String.intercalate " " (out.reverse ++ ["w=" ++ toHex t.written, "wbuf=" ++ toString t.wbuf.length]))
+
+def ioCmd (cmd : String) (args : List String) : Option String :=
+  match cmd, args with
+  | "pk", h :: ops => do pkCmd (← ofHex h) ops
+  | "tp", h :: sc :: ops => do
+    let script ← (if sc = "-" then some [] else (sc.splitOn ",").mapM parseIoStep)
+    tpCmd (← ofHex h) script ops
+  | _, _ => none
+
 def step (line : String) : String :=
   match (line.trimAscii.toString.splitOn " ").filter (· ≠ "") with
   | [] => "bad-op"
@@ -85,7 +167,9 @@ def step (line : String) : String :=
     | some out => out
     | none => match msgCmd cmd args with
       | some out => out
-      | none => "bad-op"
+      | none => match ioCmd cmd args with
+        | some out => out
+        | none => "bad-op"
 
 partial def loop (h : IO.FS.Stream) (out : IO.FS.Stream) : IO Unit := do
   let line ← h.getLine
